@@ -76,6 +76,9 @@ typedef struct vnacal_new_parameter {
     /* next parameter in hash chain */
     struct vnacal_new_parameter *vnpr_hash_next;
 
+    /* number of parameters in the hash when this one was added (1-based) */
+    int vnpr_serial;
+
 } vnacal_new_parameter_t;
 
 #define vnpr_unknown_index	u.vnpr_unknown.unknown_index
@@ -582,6 +585,9 @@ static inline double complex vs_get_v(vnacal_new_solve_state_t *vnssp)
 /* _vnacal_new_get_parameter: add/find parameter and return held */
 extern vnacal_new_parameter_t *_vnacal_new_get_parameter(
 	const char *function, vnacal_new_t *vnp, int parameter);
+
+/* _vnacal_new_forget_parameters: remove the parameters added after count */
+extern void _vnacal_new_forget_parameters(vnacal_new_t *vnp, int count);
 
 /* _vnacal_new_init_parameter_hash: set up the parameter hash */
 extern int _vnacal_new_init_parameter_hash(const char *function,
